@@ -32,7 +32,7 @@ ASSUMPTIONS = [
     "one-shot iterables are consumed once inside the harness",
     "failure *kind* is compared loosely inside coalesce (validate order vs evaluate order may name a different member's failure)",
 ]
-FLOORS = {"compared": (1500, 30000), "ok_values": (600, 12000), "no_branch_failures": (40, 800), "map_pairs_checked": (30, 300)}
+FLOORS = {"compared": (1500, 30000), "ok_values": (600, 12000), "no_branch_failures": (40, 800), "map_pairs_checked": (30, 300), "map_under_dataset_steps": (150, 3000)}
 COVER = {"kinds_ok": ["switch", "case", "coalesce", "bind", "map", "list", "tuple", "set", "dict", "apply", "ds", "tmpl", "with", "cached"]}
 SHARDS_QUICK = 4
 
@@ -118,6 +118,31 @@ def map_semantics(ctx, rng):
                       {"program": program, "options": o, "real": repr(got), "ref": repr(expected)})
     elif len(expected) > 1:
         ctx.nontrivial(spec_hash([program, o]))
+    # the same Map consumed by a memoising dataset, one long-lived instance over dictionaries that differ in members the
+    # assignment does NOT pre-set (siblings inside a pre-set section included): every element still sees the caller's
+    # current value for those
+    body2 = {"k": "tuple", "items": body["items"] + [{"k": "opt", "key": k, "dk": "const", "dv": "dflt"} for k in ("S", "T")]}
+    the_map = {"k": "map", "body": body2, "iters": program["root"]["iters"]}
+    program2 = {"datasets": {"1": {"args": [["m", {"k": "apply", "src": the_map, "fn": "f1", "n": 1}], ["c", {"k": "opt", "key": "C", "dk": "const", "dv": 0}]]}},
+                "root": {"k": "ds", "id": "1"}}
+    b2 = build(program2)
+    seq = [o]
+    for _ in range(3):
+        nxt, _, _ = U.perturb(rng, rng.choice(seq), ["A", "B", "C", "S.X", "S.Y", "T.X", "S", "T"], kinds=("change", "delete", "add"), closed_only=True)
+        seq.append(nxt)
+    seq.append(copy.deepcopy(o))
+    for step, oo in enumerate(seq):
+        try:
+            exp = Ref(program2).run(copy.deepcopy(oo))
+        except RecursionError:
+            return
+        got = observe(b2.root.evaluate, copy.deepcopy(oo))
+        ctx.evaluations += 1
+        ctx.count("map_under_dataset_steps")
+        if not (got[0] == exp[0] and got[1] == exp[1]):
+            ctx.violation("map-under-dataset", f"step {step}: a long-lived dataset consuming the Map gives {short(got)} on {short(oo)}, the eager product semantics yield {short(exp)}",
+                          {"program": program2, "history": seq[: step + 1], "real": repr(got), "ref": repr(exp)})
+            return
 
 
 def collection_order(ctx, rng):
@@ -206,5 +231,13 @@ def replay(ctx, rep):
     if w.get("family") == "hostile":
         ctx.shard, ctx.shards = w.get("shard", 0), w.get("shards", 1)
         hostile_history(ctx, w["program"], w["base"], case_rng(ctx, ("hostile", w["case"])), w["case"], "replay")
+    elif "history" in w:
+        b = build(w["program"])
+        for oo in w["history"]:
+            got, exp = observe(b.root.evaluate, copy.deepcopy(oo)), Ref(w["program"]).run(copy.deepcopy(oo))
+            ctx.evaluations += 1
+            if not (got[0] == exp[0] and got[1] == exp[1]):
+                ctx.violation("map-under-dataset", f"a long-lived dataset consuming the Map gives {short(got)} on {short(oo)}, the eager product semantics yield {short(exp)}", w)
+                return
     elif "program" in w and "options" in w:
         compare(ctx, w["program"], w["options"], tag="replay")
